@@ -119,12 +119,12 @@ Lemma not_packable_refuted : exists b m, DnsMessage.unpack b = Ok m /\ packed m 
 Proof.
   exists [x00;x01;x81;x80;x00;x02;x00;x00;x00;x00;x00;x00;x00;x00;x01;x00;x01;x03;x77;x77;x77;xc0;x0c;
           x00;x01;x00;x01].
-  eexists. split; vm_compute; reflexivity.
+  eexists. split; [vm_compute; reflexivity|]. vm_compute. reflexivity.
 Qed.
 
 Lemma good_msg_ok : wf_msg good_msg /\ Forall rdata_guard (all_rrs good_msg)
   /\ length (all_rrs good_msg) = 3
-  /\ exists b, packed good_msg = Ok b /\ DnsMessage.unpack b = Ok good_msg /\ length b = 90.
+  /\ exists b, packed good_msg = Ok b /\ DnsMessage.unpack b = Ok good_msg /\ length b = 98.
 Proof.
   split; [apply wf_msgb_ok; vm_compute; reflexivity|].
   split; [apply guardb_ok; vm_compute; reflexivity|]. split; [reflexivity|].
